@@ -86,18 +86,16 @@ func WaitAvailableKeys(keys *Keys, cfg *inputrc.Config) {
 			continue
 		}
 
+		// When convert-meta is on, any meta-prefixed bind should
+		// be stripped and replaced with an escape meta instead.
+		keyBuf = keys.convertMeta(keyBuf)
+
 		switch {
 		case keys.reading:
 			keys.keysOnce <- keyBuf
 			continue
 
 		default:
-			// When convert-meta is on, any meta-prefixed bind should
-			// be stripped and replaced with an escape meta instead.
-			if keys.cfg != nil && keys.cfg.GetBool("convert-meta") {
-				keyBuf = []byte(strutil.ConvertMeta([]rune(string(keyBuf))))
-			}
-
 			keys.mutex.RLock()
 			keys.buf = append(keys.buf, keyBuf...)
 			keys.mutex.RUnlock()
@@ -105,6 +103,15 @@ func WaitAvailableKeys(keys *Keys, cfg *inputrc.Config) {
 
 		return
 	}
+}
+
+// convertMeta applies the convert-meta setting to keys just read from the terminal.
+func (k *Keys) convertMeta(keyBuf []byte) []byte {
+	if k.cfg != nil && k.cfg.GetBool("convert-meta") {
+		return []byte(strutil.ConvertMeta([]rune(string(keyBuf))))
+	}
+
+	return keyBuf
 }
 
 // InputClosed returns the error (io.EOF or a read error) that ended the
@@ -262,6 +269,9 @@ func (k *Keys) ReadKey() (key rune, isAbort bool) {
 			k.closed = err
 			return inputrc.Esc, true
 		}
+
+		// The same keys as if they had been read before the command was called.
+		buf = k.convertMeta(buf)
 
 		char, size := utf8.DecodeRune(buf)
 		key = char
